@@ -283,6 +283,76 @@ def _replay_p1(T, a):
     return {"reproduced": True, "fingerprint": verdict.fingerprint, "detail": verdict.detail}
 
 
+# --------------------------------------------------------------------------------------------- P3 two runs of one Pipeline
+def run_twice(T: Dict[str, Any], V: List[Any], F: List[Any], S=None):
+    """One Pipeline object, two runs on different payloads/contexts: the second run must be what the documented semantics
+    give for ITS inputs, and what the first run returned must not change afterwards (nothing is shared between runs)."""
+    from semantiva.context_processors import ContextType
+    from semantiva.pipeline import Payload, Pipeline
+    from vt import lib
+
+    ref_nodes, data1, ctx1 = shapes.instantiate(T, V, F, S)
+    V2 = [v + 1 for v in V]
+    _n2, data2, ctx2 = shapes.instantiate(T, V2, F, S)
+    exp2 = refmodel.run(ref_nodes, data2, ctx2)
+    real_nodes, rdata1 = shapes.to_real(ref_nodes, data1)
+    rdata2 = shapes.real_data(data2)
+    name = T["name"]
+    p = Pipeline(real_nodes, logger=lib.QUIET)
+    first = None
+    try:
+        r1 = p.process(Payload(rdata1, ContextType(dict(ctx1))))
+        first = (r1, dict(r1.context.to_dict()), shapes.ref_data(r1.data))
+    except Exception:  # noqa: BLE001
+        pass
+    lib.reset_log()
+    try:
+        r2 = p.process(Payload(rdata2, ContextType(dict(ctx2))))
+    except Exception as e:  # noqa: BLE001
+        if exp2["outcome"] != "fail":
+            return Fail("C01.P3:%s:second-run-raised:%s" % (name, type(e).__name__), "second run of one Pipeline raised %s: %s; on its own inputs the reference succeeds" % (type(e).__name__, str(e)[:160]))
+        if type(e).__name__ not in exp2["exc_names"]:
+            return Fail("C01.P3:%s:second-run-wrong-exception:%s" % (name, type(e).__name__), "second run raised %s, prescribed %s" % (type(e).__name__, exp2["exc_names"]))
+        r2 = None
+    if r2 is not None:
+        if exp2["outcome"] == "fail":
+            return Fail("C01.P3:%s:second-run-should-have-raised" % name, "second run returned; reference prescribes %s" % (exp2["exc_names"],))
+        if not shapes.same_data(shapes.ref_data(r2.data), exp2["data"]):
+            return Fail("C01.P3:%s:second-run-data" % name, "second run data %r, reference on its own inputs %r" % (shapes.ref_data(r2.data), exp2["data"]))
+        if not (r2.context.to_dict() == exp2["ctx"]):
+            return Fail("C01.P3:%s:second-run-context" % name, "second run context %r, reference on its own inputs %r" % (r2.context.to_dict(), exp2["ctx"]))
+    if first is not None:
+        r1, c1, d1 = first
+        if not (r1.context.to_dict() == c1) or not shapes.same_data(shapes.ref_data(r1.data), d1):
+            return Fail("C01.P3:%s:first-result-changed-by-second-run" % name, "what the first run returned changed while the second ran: context %r -> %r" % (c1, r1.context.to_dict()))
+    return True
+
+
+def _make_p3(T):
+    use_s = shapes.uses_strings(T)
+
+    def p3(v0: int, v1: int, v2: int, v3: int, v4: int, v5: int, v6: int, v7: int, v8: int, v9: int, v10: int, v11: int,
+           f0: bool, f1: bool, f2: bool, f3: bool, f4: bool, f5: bool, f6: bool, f7: bool, f8: bool, f9: bool, f10: bool, f11: bool, s0: str, s1: str):
+        if use_s:
+            from vt.engine import assume
+
+            assume(len(s0) <= 3 and len(s1) <= 3)
+        return run_twice(T, [v0, v1, v2, v3, v4, v5, v6, v7, v8, v9, v10, v11], [f0, f1, f2, f3, f4, f5, f6, f7, f8, f9, f10, f11], S=[s0, s1])
+
+    p3.__name__ = "P3_" + T["name"]
+    return p3
+
+
+def _replay_p3(T, a):
+    from vt import lib
+
+    lib.register()
+    v = run_twice(T, [a["v%d" % i] for i in range(shapes.NV)], [a["f%d" % i] for i in range(shapes.NF)], S=[a.get("s0", ""), a.get("s1", "")])
+    if v is True:
+        return {"reproduced": False, "fingerprint": "", "detail": "second run agrees with the reference on the concrete input"}
+    return {"reproduced": True, "fingerprint": v.fingerprint, "detail": v.detail}
+
+
 def templates(tier: str) -> List[Dict[str, Any]]:
     T = shapes.length1() + shapes.curated() + shapes.generated(2)
     if tier == "thorough":
@@ -308,10 +378,13 @@ def obligations(tier: str) -> List[Ob]:
             budget=400 if not big else 900,
             per_path=60,
             bound="per shape template: payload, every configured value, every initial context value symbolic ints; every config placement and context-key presence a symbolic flag. "
-            + ("Templates: all length-1 + 24 curated interactions (length 2-5) + ALL length-2 sequences over 19 node forms." if not big else "Templates: length-1, curated, ALL length-2 and length-3 sequences over 19 node forms, + VERIF_SEED-seeded draw of 400 length-4/5 sequences."),
+            + ("Templates: all length-1 + the curated interactions (length 2-5) + ALL length-2 sequences over 19 node forms." if not big else "Templates: length-1, curated, ALL length-2 and length-3 sequences over 19 node forms, + VERIF_SEED-seeded draw of 400 length-4/5 sequences."),
             targets=["semantiva/pipeline/pipeline.py:Pipeline._process", "semantiva/execution/orchestrator/orchestrator.py:SemantivaOrchestrator.execute", "semantiva/pipeline/nodes/nodes.py:_DataNode._process_single_item_with_context", "semantiva/pipeline/_param_resolution.py:resolve_runtime_value"],
             stubs=list(STUBS),
         ),
+        Ob("C01.P3", _make_p3, _replay_p3, params=shapes.length1() + shapes.curated() + (shapes.generated(2) if big else []), budget=400 if not big else 900, per_path=60,
+           bound="ONE Pipeline object run twice (second run on every value + 1, same placements): second result vs the reference on its own inputs, first result unchanged afterwards; templates: length-1 + curated (thorough: + all length-2)",
+           targets=["semantiva/pipeline/pipeline.py:Pipeline._process", "semantiva/execution/orchestrator/orchestrator.py:SemantivaOrchestrator.execute", "semantiva/data_processors/data_slicer_factory.py"], stubs=list(STUBS)),
     ]
     return obs
 
